@@ -455,8 +455,14 @@ def run(ctx):
         ("GeneralSequence", "_alphabet"): "alphabets are immutable once built and are shared between sequences by design"})
     cp = s.func("Sequence.copy")
     fresh = [st for st in stmts(cp) if isinstance(st, ast.Assign) and ast.unparse(st.targets[0]) == "clone.code"]
+    # (if / else statements or one conditional expression: the clone gets a COPY of the code unless the caller hands in a new one)
+    def copies_unless_given(v):
+        return isinstance(v, ast.IfExp) and (
+            same_expr(v.test, "new_seq_code is None") and copycontract.is_fresh(v.body) is True and same_expr(v.orelse, "new_seq_code")
+            or same_expr(v.test, "new_seq_code is not None") and copycontract.is_fresh(v.orelse) is True and same_expr(v.body, "new_seq_code"))
     ctx.ob("R5.fresh", SEQ, "Sequence.copy", "clone.code = np.copy(self.code)",
-           any(copycontract.is_fresh(st.value) is True for st in fresh), "copy() must copy the sequence code", cp.lineno)
+           any(copycontract.is_fresh(st.value) is True or copies_unless_given(st.value) for st in fresh),
+           "copy() must copy the sequence code", cp.lineno)
     shallow_copy_mutation(ctx, "R5.shallow-copy-mutated", [SEQ, TYPES, ALPH, CODON])
     rv = s.func("Sequence.reverse")
     under_flag = [st for st in stmts(rv) if isinstance(st, ast.If) and "copy" in names_in(st.test)]
